@@ -316,8 +316,8 @@ def get_object_results(
         return []
 
     # There is no GT and not FP validation (= all FP)
-    if not ground_truth_objects and evaluation_task.is_fp_validation() is False:
-        return _get_fp_object_results(estimated_objects)
+    if not ground_truth_objects:
+        return [] if evaluation_task.is_fp_validation() else _get_fp_object_results(estimated_objects)
 
     assert isinstance(
         ground_truth_objects[0], type(estimated_objects[0])
